@@ -377,11 +377,15 @@ func c13Check(c C13Case, rec *Recorder) *Disc {
 	return nil
 }
 
-func TestC13(t *testing.T) {
-	Prop[C13Case]{ID: "C13", Gen: c13Gen, Check: c13Check,
+func c13Prop() Prop[C13Case] {
+	return Prop[C13Case]{ID: "C13", Gen: c13Gen, Check: c13Check,
 		Rule: "generator: patterns built from the documented grammar (scheme up to 64 bytes incl. near-'file' schemes; LDH domains up to exactly 253 bytes, 63-byte labels, Punycode, trailing dot; IPv4/IPv6 canonical literals via net/netip; *. before domains up to 251 bytes; " +
 			"ports absent/*/1..65535/other scheme's default; a forced 'every maximum at once' branch: 64-byte scheme + 253-byte domain + trailing dot + 5-digit port) - valid by construction - and 36 single-defect mutations of them - invalid by construction. " +
 			"Oracle: valid => accepted, wildcard-free patterns match themselves verbatim (GET and preflight), wildcard patterns match an instance; invalid => exactly one *UnacceptableOriginPatternError with Value == the string, Reason in {invalid, prohibited} (prohibited for null and file). " +
 			"non-trivial = valid pattern with a component at a documented maximum, an IP literal, Punycode or trailing dot, or any invalid pattern; distinct by pattern string.",
-		Assumptions: []string{"grey zones not generated: https with IP host, '_' in schemes or labels, hyphens in label positions 3-4, TLD starting with a digit, *. + 251-byte domain + trailing dot"}}.Run(t)
+		Assumptions: []string{"grey zones not generated: https with IP host, '_' in schemes or labels, hyphens in label positions 3-4, TLD starting with a digit, *. + 251-byte domain + trailing dot"}}
 }
+
+func TestC13(t *testing.T) { c13Prop().Run(t) }
+
+func FuzzC13(f *testing.F) { FuzzProp(f, c13Prop()) }
